@@ -980,6 +980,9 @@ func init() {
 				Threads: [][]VOp{{b("A", e("e2", "v1"))}, {{K: "txn", Parts: map[string][]VEnt{"A": {e("e3", "v1")}, "B": {e("e1", "v2")}}}}}},
 			{Name: "K3-batch-vs-rename", Datasets: []string{"A"}, IDs: vIDs, Oracle: "cat", Pre: []VOp{b("A", e("e1", "v1"))}, MapPoints: true,
 				Threads: [][]VOp{{b("A", e("e2", "v1"))}, {{K: "rename", DS: "A", To: "B"}}}},
+			// a refused batch on B next to a writer of new ids on A, which then stores the same ids once more
+			{Name: "K5-refused-batch-vs-writer-then-repost", Datasets: vDS, IDs: []string{"e1", "e2", "e3", "e4"}, Oracle: "cat",
+				Threads: [][]VOp{{b("A", e("e1", "v1"), e("e2", "v1")), b("A", e("e1", "v1"), e("e2", "v1"))}, {{K: "badbatch", DS: "B", Ents: []VEnt{e("e4", "v1")}}}}},
 			{Name: "K4-three-writers", Datasets: vDS, IDs: vIDs, Oracle: "cat",
 				Threads: [][]VOp{{b("A", e("e1", "v1"))}, {b("B", e("e1", "v2"))}, {b("A", e("e2", "v1"))}}},
 		}
